@@ -16,6 +16,15 @@
 (* The initial states are ALL (signature, call) pairs within the bounds.  Invariants: the      *)
 (* machine ends in exactly Bind(sig, call) of ArgBindOps whatever the keyword order           *)
 (* (MachineIsFunction), Bind is total and satisfies the binding laws (LawsHold).              *)
+(*                                                                                            *)
+(* Histories (MaxRedef > 0): a function object outlives a call and its defaults can be         *)
+(* re-assigned between calls (pytype: attribute.py _set_member -> SignedFunction.              *)
+(* set_function_defaults for `f.__defaults__ = <tuple>`; CPython also has f.__kwdefaults__).   *)
+(* A behaviour is  define, call*, SetDefaults, call*, ... : `Return` goes from a finished call *)
+(* back to pc = "sig", `SetDefaults` replaces the defaults of `sig` (at most MaxRedef times;   *)
+(* `orig` is the signature of the `def`, `hist` the re-assignments so far).  Every call is     *)
+(* bound against the CURRENT `sig`; HistoryOK / RedefLawsHold state what a re-assignment may   *)
+(* and may not change.                                                                         *)
 EXTENDS ArgBindOps, Json
 
 CONSTANTS N,          \* at most N parameters of each kind
@@ -24,11 +33,14 @@ CONSTANTS N,          \* at most N parameters of each kind
           Foreign,    \* set of keyword names that are not parameters ("z", ...)
           StarNames,  \* BOOLEAN: "va" / "kw" (the names of *va / **kw) may be used as keywords
           SampleMod, SampleRem,   \* export only signatures with SigIndex % SampleMod = SampleRem
-          Export      \* BOOLEAN
+          Export,     \* "none" | "sigs" (signature + every call shape) | "hists" (history + sensitive calls)
+          MaxRedef    \* at most MaxRedef re-assignments of the defaults in one behaviour
 
-VARIABLES sig, call, pc, slots, vargs, kwd, todo, err
+VARIABLES sig, call, pc, slots, vargs, kwd, todo, err,
+          orig,       \* the signature as defined (sig = Stage(orig, hist, Len(hist)))
+          hist        \* the re-assignments of the defaults so far
 
-vars == <<sig, call, pc, slots, vargs, kwd, todo, err>>
+vars == <<sig, call, pc, slots, vargs, kwd, todo, err, orig, hist>>
 
 EMPTY == <<"empty">>
 
@@ -43,7 +55,7 @@ NOCALL == [npos |-> 0, kws |-> {}]
 Init ==
   \E s \in Signatures(N) :
      /\ SigIndex(s) % SampleMod = SampleRem
-     /\ sig = s /\ call = NOCALL /\ pc = "sig"
+     /\ sig = s /\ call = NOCALL /\ pc = "sig" /\ orig = s /\ hist = <<>>
      /\ slots = [n \in ParamNames(s) |-> EMPTY]
      /\ vargs = <<>> /\ kwd = {} /\ todo = {} /\ err = "none"
 
@@ -51,7 +63,7 @@ ChooseCall ==
   /\ pc = "sig"
   /\ \E c \in Calls(sig, MaxPos, MaxKw, Foreign, StarNames) : call' = c /\ todo' = c.kws
   /\ pc' = "positional"
-  /\ UNCHANGED <<sig, slots, vargs, kwd, err>>
+  /\ UNCHANGED <<sig, slots, vargs, kwd, err, orig, hist>>
 
 P == NPosParams(sig)
 
@@ -61,13 +73,13 @@ Positional ==
                  IF \E i \in 1 .. Min2(call.npos, P) : PosParams(sig)[i] = n
                    THEN SrcPos(CHOOSE i \in 1 .. P : PosParams(sig)[i] = n) ELSE EMPTY]
   /\ pc' = "overflow"
-  /\ UNCHANGED <<sig, call, vargs, kwd, todo, err>>
+  /\ UNCHANGED <<sig, call, vargs, kwd, todo, err, orig, hist>>
 
 Overflow ==
   /\ pc = "overflow"
   /\ vargs' = IF sig.va /\ call.npos > P THEN [j \in 1 .. (call.npos - P) |-> P + j] ELSE <<>>
   /\ pc' = "keywords"
-  /\ UNCHANGED <<sig, call, slots, kwd, todo, err>>
+  /\ UNCHANGED <<sig, call, slots, kwd, todo, err, orig, hist>>
 
 Keyword(k) ==
   /\ pc = "keywords" /\ k \in todo
@@ -79,18 +91,18 @@ Keyword(k) ==
        ELSE IF sig.kw
               THEN kwd' = kwd \cup {k} /\ UNCHANGED <<slots, err, pc>>
               ELSE err' = "keyword" /\ pc' = "done" /\ UNCHANGED <<slots, kwd>>     \* unexpected
-  /\ UNCHANGED <<sig, call, vargs>>
+  /\ UNCHANGED <<sig, call, vargs, orig, hist>>
 
 KeywordsDone ==
   /\ pc = "keywords" /\ todo = {}
   /\ pc' = "count"
-  /\ UNCHANGED <<sig, call, slots, vargs, kwd, todo, err>>
+  /\ UNCHANGED <<sig, call, slots, vargs, kwd, todo, err, orig, hist>>
 
 Count ==
   /\ pc = "count"
   /\ IF call.npos > P /\ ~sig.va THEN err' = "too_many" /\ pc' = "done"
                                  ELSE pc' = "defaults" /\ UNCHANGED err
-  /\ UNCHANGED <<sig, call, slots, vargs, kwd, todo>>
+  /\ UNCHANGED <<sig, call, slots, vargs, kwd, todo, orig, hist>>
 
 Defaults ==
   /\ pc = "defaults"
@@ -101,7 +113,7 @@ Defaults ==
        /\ IF \E i \in 1 .. P : fill[PosParams(sig)[i]] = EMPTY
             THEN err' = "missing" /\ pc' = "done"
             ELSE pc' = "kwdefaults" /\ UNCHANGED err
-  /\ UNCHANGED <<sig, call, vargs, kwd, todo>>
+  /\ UNCHANGED <<sig, call, vargs, kwd, todo, orig, hist>>
 
 KwDefaults ==
   /\ pc = "kwdefaults"
@@ -110,12 +122,29 @@ KwDefaults ==
        /\ slots' = fill
        /\ err' = IF \E n \in KoSet(sig) : fill[n] = EMPTY THEN "missing_kwonly" ELSE "none"
   /\ pc' = "done"
-  /\ UNCHANGED <<sig, call, vargs, kwd, todo>>
+  /\ UNCHANGED <<sig, call, vargs, kwd, todo, orig, hist>>
+
+(* the call is over (bound or TypeError); the function object lives on *)
+Return ==
+  /\ pc = "done" /\ MaxRedef > 0
+  /\ pc' = "sig" /\ call' = NOCALL
+  /\ slots' = [n \in ParamNames(sig) |-> EMPTY]
+  /\ vargs' = <<>> /\ kwd' = {} /\ todo' = {} /\ err' = "none"
+  /\ UNCHANGED <<sig, orig, hist>>
+
+(* f.__defaults__ = (..k values..)  /  f.__kwdefaults__ = {..}  between two calls *)
+SetDefaults ==
+  /\ pc = "sig" /\ Len(hist) < MaxRedef
+  /\ \E r \in Redefs(sig) :
+       /\ hist' = Append(hist, r)
+       /\ sig' = Redefine(sig, r, Len(hist) + 1)
+  /\ UNCHANGED <<call, pc, slots, vargs, kwd, todo, err, orig>>
 
 Next ==
   \/ ChooseCall
   \/ Positional \/ Overflow \/ (\E k \in todo : Keyword(k)) \/ KeywordsDone
   \/ Count \/ Defaults \/ KwDefaults
+  \/ Return \/ SetDefaults
 
 Spec == Init /\ [][Next]_vars
 
@@ -124,6 +153,7 @@ TypeOK ==
   /\ pc \in {"sig", "positional", "overflow", "keywords", "count", "defaults", "kwdefaults", "done"}
   /\ err \in {"none", "keyword", "too_many", "missing", "missing_kwonly"}
   /\ todo \subseteq call.kws /\ kwd \subseteq call.kws
+  /\ Len(hist) <= MaxRedef
 
 (* the phase machine ends in the function Bind, whatever order the keywords were taken in *)
 MachineIsFunction ==
@@ -143,11 +173,38 @@ KindsSound ==
   /\ k = "missing" => call.npos < NPosParams(sig)
   /\ k = "missing_kwonly" => sig.ko > 0
 
+(* Histories.  The current signature is the definition with the re-assignments applied in     *)
+(* order and nothing else (no call changes it); apart from the generation of the default      *)
+(* values it is again a signature of the bounds, i.e. a call after a re-assignment binds      *)
+(* exactly like a call of a function DEFINED with the current defaults.                       *)
+Fresh(s) == [s EXCEPT !.pgen = 0, !.kgen = 0]
+HistoryOK ==
+  /\ sig = Stage(orig, hist, Len(hist))
+  /\ Fresh(sig) \in Signatures(N)
+  /\ ParamNames(sig) = ParamNames(orig) /\ sig.va = orig.va /\ sig.kw = orig.kw
+  /\ pc = "done" => Bind(sig, call).err = Bind(Fresh(sig), call).err
+(* what one re-assignment changes for a call, and what it cannot change (ArgBindOps RedefLaws) *)
+RedefLawsHold ==
+  (pc = "positional" /\ hist # <<>>) =>
+     RedefLaws(Stage(orig, hist, Len(hist) - 1), sig, call)
+
 -----------------------------------------------------------------------------
 (* Export: one CASE line per signature (the pc = "sig" states) with every call shape of the   *)
 (* bounds; OnlySigs stops the behaviours there.                                               *)
 OnlySigs == UNCHANGED vars
+(* Export "hists": one CASE line per (definition, history) with the call shapes that are       *)
+(* SENSITIVE to the history: `flip` = the outcome (ErrKind) differs between two consecutive    *)
+(* stages, `dflt` = binds at the last stage using some default value.  OnlyHists generates the *)
+(* histories without calls.                                                                   *)
+OnlyHists == SetDefaults
+HistCalls ==
+  LET all == Calls(orig, MaxPos, MaxKw, Foreign, StarNames)
+      st == [m \in 0 .. Len(hist) |-> Stage(orig, hist, m)]
+      flip == {c \in all : \E m \in 1 .. Len(hist) : ErrKind(st[m - 1], c) # ErrKind(st[m], c)}
+      dflt == {c \in all \ flip : UsesDefault(sig, c)} IN
+  [sig |-> orig, redefs |-> hist, flip |-> flip, dflt |-> dflt]
 ExportInv ==
-  (Export /\ pc = "sig") =>
-     PrintT(<<"CASE", ToJson([sig |-> sig, calls |-> Calls(sig, MaxPos, MaxKw, Foreign, StarNames)])>>)
+  /\ (Export = "sigs" /\ pc = "sig" /\ hist = <<>>) =>
+       PrintT(<<"CASE", ToJson([sig |-> sig, calls |-> Calls(sig, MaxPos, MaxKw, Foreign, StarNames)])>>)
+  /\ (Export = "hists" /\ pc = "sig" /\ hist # <<>>) => PrintT(<<"CASE", ToJson(HistCalls)>>)
 =============================================================================
